@@ -239,7 +239,11 @@ func (c *compiler) compile(slice bigslice.Slice, part partitioner) (tasks []*Tas
 		}
 		// We now insert a set of tasks whose only purpose is (re-)shuffling
 		// the output from the previously completed task.
-		shuffleOpName := c.namer.New(fmt.Sprintf("%s_shuffle", result.tasks[0].Name.Op))
+		// The name includes this invocation's index, like every other
+		// operation name: stores address task output by operation name
+		// and shard, so shuffle tasks of different invocations that reuse
+		// the same result must not share a name.
+		shuffleOpName := c.namer.New(fmt.Sprintf("inv%d_%s_shuffle", c.inv.Index, result.tasks[0].Name.Op))
 		tasks = make([]*Task, len(result.tasks))
 		for shard, task := range result.tasks {
 			tasks[shard] = &Task{
